@@ -1,4 +1,6 @@
 import Octo.Model.Value
+import Octo.Model.Ty
+import Octo.Model.Changelog
 /-!
   Canonical token encoding shared by the Go harness and the Lean driver (DESIGN §2.2b).
   One operation per line, space separated tokens.  Values are prefix-encoded:
@@ -73,6 +75,91 @@ partial def encodeValue : Value → String
 
 def parseValues (k : Nat) (toks : List String) : Option (List Value × List String) :=
   parseValue.parseMany k toks
+
+/-! Types:  Null Int Float Bool Str Time Dur Any ListNil | List <ty> | Struct<k> (<name hex> <ty>)… | Tuple<k> <ty>… | Union<k> <ty>… -/
+def parseName (hex : String) : Name := (parseHexBytes hex).map (·.toNat)
+def encodeName (n : Name) : String := hexOfBytes (n.map UInt8.ofNat)
+
+partial def parseTy : List String → Option (Ty × List String)
+  | [] => none
+  | tok :: rest =>
+    if tok == "Null" then some (.null, rest) else if tok == "Int" then some (.int, rest)
+    else if tok == "Float" then some (.float, rest) else if tok == "Bool" then some (.bool, rest)
+    else if tok == "Str" then some (.str, rest) else if tok == "Time" then some (.time, rest)
+    else if tok == "Dur" then some (.dur, rest) else if tok == "Any" then some (.any, rest)
+    else if tok == "ListNil" then some (.listNil, rest)
+    else if tok == "List" then (parseTy rest).map fun (t, r) => (.list t, r)
+    else if tok.startsWith "Struct" then
+      (parseFields (tok.drop 6).toString.toNat! rest).map fun (ns, ts, r) => (.struct ns ts, r)
+    else if tok.startsWith "Tuple" then
+      (parseTys (tok.drop 5).toString.toNat! rest).map fun (ts, r) => (.tuple ts, r)
+    else if tok.startsWith "Union" then
+      (parseTys (tok.drop 5).toString.toNat! rest).map fun (ts, r) => (.union ts, r)
+    else none
+where
+  parseTys : Nat → List String → Option (List Ty × List String)
+    | 0, rest => some ([], rest)
+    | k + 1, rest => do
+      let (t, r) ← parseTy rest
+      let (ts, r') ← parseTys k r
+      pure (t :: ts, r')
+  parseFields : Nat → List String → Option (List Name × List Ty × List String)
+    | 0, rest => some ([], [], rest)
+    | _ + 1, [] => none
+    | k + 1, nm :: rest => do
+      let (t, r) ← parseTy rest
+      let (ns, ts, r') ← parseFields k r
+      pure (parseName (nm.drop 1).toString :: ns, t :: ts, r')
+
+partial def encodeTy : Ty → String
+  | .null => "Null" | .int => "Int" | .float => "Float" | .bool => "Bool" | .str => "Str"
+  | .time => "Time" | .dur => "Dur" | .any => "Any" | .listNil => "ListNil"
+  | .list e => "List " ++ encodeTy e
+  | .struct ns ts =>
+    String.intercalate " " (s!"Struct{ts.length}" :: (ns.zip ts).map fun (n, t) => "x" ++ encodeName n ++ " " ++ encodeTy t)
+  | .tuple ts => String.intercalate " " (s!"Tuple{ts.length}" :: ts.map encodeTy)
+  | .union ts => String.intercalate " " (s!"Union{ts.length}" :: ts.map encodeTy)
+
+/-! Records and messages:  `R<k> v1 … vk +|- <et>`  with `<et>` = `z` (zero time) or ns;  `W<ns>` a watermark. -/
+def parseEt (s : String) : Option Int := if s == "z" then none else s.toInt?
+def encodeEt : Option Int → String
+  | none => "z"
+  | some t => toString t
+
+def parseRec : List String → Option (Rec × List String)
+  | tok :: rest =>
+    if tok.startsWith "R" then do
+      let (vs, r) ← parseValues (tok.drop 1).toString.toNat! rest
+      match r with
+      | sign :: et :: r' => pure ({ vals := vs, retr := sign == "-", et := parseEt et }, r')
+      | _ => none
+    else none
+  | [] => none
+
+def encodeRec (r : Rec) : String :=
+  String.intercalate " " ((s!"R{r.vals.length}" :: r.vals.map encodeValue) ++ [if r.retr then "-" else "+", encodeEt r.et])
+
+def parseMsg : List String → Option (Msg × List String)
+  | tok :: rest =>
+    if tok.startsWith "W" then (tok.drop 1).toString.toInt?.map fun t => (.wm t, rest)
+    else (parseRec (tok :: rest)).map fun (r, rest) => (.data r, rest)
+  | [] => none
+
+def encodeMsg : Msg → String
+  | .data r => encodeRec r
+  | .wm t => s!"W{t}"
+
+/-- a whole stream on one line: messages separated by `;` tokens -/
+partial def parseMsgs (toks : List String) : Option (List Msg) :=
+  match toks with
+  | [] => some []
+  | ";" :: rest => parseMsgs rest
+  | _ => do
+    let (m, r) ← parseMsg toks
+    let ms ← parseMsgs r
+    pure (m :: ms)
+
+def encodeMsgs (ms : List Msg) : String := String.intercalate " ; " (ms.map encodeMsg)
 
 def tokens (line : String) : List String :=
   (line.trimAscii.toString.splitOn " ").filter (· ≠ "")
